@@ -166,7 +166,7 @@ def make_trace(tid, rng, nops=30, **opt):
     dontcare = {"heads": rng.choice([16, 255, 0]), "cyl": rng.choice([1024, 0, 0xFFFF]), "in_use": rng.choice([0, 0x746F6E59, 1]),
                 "flags": rng.choice([0, 1, 2, 0x80000000]), "ext_off": rng.choice([0, 0, 7]), "v1_unused": rng.choice([0, 0xFFFFFFFF, 1])}
     if ver == 2:
-        hdr_clusters = -(-(64 + 4 * n) // cs)
+        hdr_clusters = -(-(64 + 4 * n) // cs) + rng.choice([0, 0, 0, 2, 5])    # the data area may start behind reserved clusters
         npos = n + rng.randrange(0, 3)
         pos = list(range(hdr_clusters, hdr_clusters + npos))
         rng.shuffle(pos)
@@ -175,7 +175,7 @@ def make_trace(tid, rng, nops=30, **opt):
             pp, npos = diskprop.run_positions(plan, first=hdr_clusters)
             bat = [0 if k == "U" else pp[i] for i, k in enumerate(plan)]
         img = {"kind": "hds", "ver": 2, "n": n, "cb": 1, "bat": {i: bat[i] for i in range(n)}, "size": n, "parent": parent}
-        vf, info = enc_hds.build(img, cluster_size=cs, P=hdr_clusters + npos, size_bytes=size_b, hdr_kw=dontcare, file_id=fid)
+        vf, info = enc_hds.build(img, cluster_size=cs, P=hdr_clusters + npos, size_bytes=size_b, hdr_kw=dontcare, file_id=fid, first_cluster=hdr_clusters)
         timg = {"kind": "hds", "ver": 2, "n": n, "cb": 1, "bat": bat, "size": n, "parent": parent}
         cell = cs
     else:
